@@ -260,6 +260,7 @@ Proof.
   - unfold builtin_close in H. split_matches H; injection H as <- <- <-; prov_case HP.
   - injection H as <- <- <-. prov_case HP.
   - destruct (maxFieldIndex <? n); injection H as <- <- <-; prov_case HP.
+  - unfold builtin_fflush in H. split_matches H; injection H as <- <- <-; prov_case HP.
 Qed.
 
 Lemma run_prov c e : forall h s E,
